@@ -42,8 +42,11 @@ def generate(tier, rng):
         d = tg.parse_desc(key)
         for _ in range(40 if big else 8):
             v = tg.rust_order(d, tg.gen_value(d, rng))
-            out.append("DT %s %s" % (key, hexs(tg.encode(d, v, rng) + b"\x01")))
-            out.append("DT %s %s" % (key, hexs(tg.encode(d, v))))
+            e1, e2 = tg.encode(d, v, rng), tg.encode(d, v)
+            # a re-framed encoding of a known value: that value at the end of the item, or an error — never something else
+            exp = "" if key == "systemtime" and v[1] == 1 else " =%s@%d" % (tg.canon_show(d, v), len(e1))
+            out.append("DT %s %s%s" % (key, hexs(e1 + b"\x01"), exp if key not in tg.LOSSY else ""))
+            out.append("DT %s %s%s" % (key, hexs(e2), (" =%s@%d" % (tg.canon_show(d, v), len(e2))) if exp and key not in tg.LOSSY else ""))
         if key in tg.REGISTRY:
             for _ in range(10 if big else 2):
                 v = tg.rust_order(d, tg.gen_value(d, rng))
@@ -57,3 +60,39 @@ def nontrivial(line, impl):
 def classify(line, impl):
     t = line.split()
     return t[0] + ":" + t[1].split("(")[0] + ":" + impl.split("@")[0].split(";")[0][:12]
+
+
+def _scalarish(d):
+    """type descriptors for which decode-then-encode must preserve the data-model item exactly"""
+    k = d[0]
+    if k in ("u", "i", "nzu", "nzi", "int", "bool", "char", "f32", "f64", "str", "bytes", "bytearr", "cstr", "unit"): return True
+    if k == "opt": return _scalarish(d[1])
+    if k == "seq": return d[2] == "ordered" and _scalarish(d[1])
+    if k == "arr": return _scalarish(d[2])
+    if k == "tup": return all(_scalarish(x) for x in d[1])
+    if k == "enum": return all(_scalarish(x) for x in d[1])
+    if k == "bound": return _scalarish(d[1])
+    if k == "tagged": return _scalarish(d[2])
+    return False
+
+def oracle(line, impl):
+    """C04 on typed decoding: if decoding an input as T succeeds, the bytes it consumed are exactly one well-formed item and
+    (for types whose encoding is a function of the data-model value) that item has the same data-model value as the decoded
+    value written back by the encoder — a matching type never returns a *different* value."""
+    t = line.split()
+    if t[0] != "DT" or not impl.startswith("ok:") or ";re=" not in impl: return None
+    key = t[1]
+    if key in ("tag",) + tuple(tg.BORROWED): return None
+    pos = int(impl.split("@")[1].split(";")[0])
+    start = int(t[3]) if len(t) > 3 and not t[3].startswith("=") else 0
+    inp = bytes.fromhex(t[2]) if t[2] != "-" else b""
+    consumed = inp[start:pos]
+    a = parse_item(consumed)
+    if a is None or a[1] != b"": return "decode succeeded but the %d bytes it consumed (%s) are not exactly one well-formed item" % (len(consumed), consumed.hex())
+    if not _scalarish(tg.parse_desc(key)): return None
+    re_hex = impl.split(";re=")[1]
+    if re_hex == "refused": return None
+    b = parse_item(bytes.fromhex(re_hex) if re_hex != "-" else b"")
+    if b is None: return "the encoder's output for the decoded value is not a well-formed item: " + re_hex
+    if a[0] != b[0]: return "decoded value re-encodes to a different data-model item: input item %r, re-encoded %r" % (a[0], b[0])
+    return None
